@@ -36,3 +36,18 @@ Theorem C08_first_matching_realm : forall md5 rx cfg fs st h c now rnd s i b,
     In s (if acct : bool then rl_acc rl else rl_srv rl) /\ existsb (N.eqb 0) uname = false.
 Proof. exact forward_first_realm. Qed.
 Print Assumptions C08_first_matching_realm.
+
+(* ---- REFUTED for the User-Name of length 0 (known finding F24).  The property says '*' matches every User-Name and
+   quantifies over lengths 0..253; the code (and therefore the faithful model) drops a request whose User-Name is empty
+   before any realm is consulted: radattr2ascii returns NULL for the NULL value of an empty attribute.  With a matcher
+   that accepts everything (what '*' compiles to), one realm and a usable server: the one-octet name is forwarded, the
+   empty one is not.  The same input is replayed on the implementation by the cases emptyuser-0/1 of gen/C08.py. *)
+From RSP Require Import Examples_handlers.
+Definition rx_all (_ : N) (_ : bytes) : option (list (Z * Z)) := Some [].
+Definition req_with_username (u : bytes) : bytes :=
+  [1; 9; 0; N.of_nat (22 + length u)] ++ ex_auth ++ [1; N.of_nat (2 + length u)] ++ u.
+Theorem C08_star_empty_username_refuted :
+  (exists b, In (OEnq 0 0 b) (snd (radsrv toy_md5 rx_all ex_cfg nofail (ex_state (req_with_username [120])) 0 0 100%Z ex_rnd))) /\
+  snd (radsrv toy_md5 rx_all ex_cfg nofail (ex_state (req_with_username [])) 0 0 100%Z ex_rnd) = [ORet 1].
+Proof. split; [eexists; vm_compute; left; reflexivity | vm_compute; reflexivity]. Qed.
+Print Assumptions C08_star_empty_username_refuted.
